@@ -400,6 +400,7 @@ def items(tier: str, seed: int):
     out.append({"kind": "empty-configs"})
     out.append({"kind": "edited-generated"})
     out.append({"kind": "banner-layouts"})
+    out.append({"kind": "file-names"})
     return out
 
 
@@ -503,6 +504,44 @@ def run_item(item) -> Acc:
                     hist = {"initial": init, "cmds": [], "shape_sig": {"style": "generated+emptied-section"}, "skip_accept": True}
                     hist["cmds"].append(_apply(acc, root, ("init", q_, False), hist))
                     hist["cmds"].append(_apply(acc, root, ("init", q_, False), hist))
+    elif k == "file-names":
+        # every spelling of the configuration file's name: whatever `config set` / `config reset` make
+        # of it, a command that FAILS is a rejection and leaves the file byte-for-byte unchanged, and
+        # a command that succeeds leaves a file from which `config get` returns the value
+        import json as _json  # noqa: PLC0415
+
+        settings = {"app_name": "kept", "log_level": "DEBUG", "max_retries": 5, "timeout": 12.5, "greeting": "Hello"}
+        for fname in ("cfg.yaml", "cfg.yml", "cfg.json", "cfg.YAML", "cfg.Yml", "cfg.Json", "cfg.JSON", "settings", "cfg.toml", "cfg.yaml.bak"):
+            as_json = fname.lower().endswith(".json")
+            initial = (_json.dumps(settings, indent=2) + "\n" if as_json else "".join(f"{k_}: {v_}\n" for k_, v_ in settings.items())).encode()
+            for cmd in (["config", "set", "max_retries", "7"], ["config", "set", "max_retries", "-4"], ["config", "set", "log_level", "bogus"], ["config", "set", "greeting", "Hi"], ["config", "reset", "--yes"]):
+                (root / fname).write_bytes(initial)
+                r = obs.cli_inproc(["--config", fname, *cmd], root)
+                after = (root / fname).read_bytes() if (root / fname).exists() else None
+                acc.case()
+                acc.edge()
+                acc.valid()
+                case = {"file_name": fname, "initial": initial.decode(), "commands": [" ".join(cmd)]}
+                acc.outcome((fname, cmd[1], cmd[-1], r["exit_code"], after == initial))
+                if r["exit_code"] != 0:
+                    acc.nt(("file-names", fname, tuple(cmd)))
+                    if after != initial:
+                        acc.fail({"inv": "failed-command-changed-file", "command": cmd[1], "name_class": "lower-case" if fname == fname.lower() else "mixed-case"}, case, "file unchanged", {"exit": r["exit_code"], "bytes_after": None if after is None else len(after), "stderr": r["stderr"][-160:]})
+                elif cmd[1] == "set":
+                    acc.nt(("file-names", fname, tuple(cmd)))
+                    g = obs.cli_inproc(["--config", fname, "config", "get", cmd[2]], root)
+                    got = g["stdout"][:-1] if g["stdout"].endswith("\n") else g["stdout"]
+                    if g["exit_code"] != 0 or got != cmd[3]:
+                        acc.fail({"inv": "get-returns-accepted", "name_class": "lower-case" if fname == fname.lower() else "mixed-case"}, case, cmd[3], {"exit": g["exit_code"], "stdout": g["stdout"][:100]})
+                    # the other settings of the file are still in effect
+                    for k_, v_ in settings.items():
+                        if k_ == cmd[2]:
+                            continue
+                        g = obs.cli_inproc(["--config", fname, "config", "get", k_], root)
+                        if g["exit_code"] != 0 or g["stdout"].strip() != str(v_):
+                            acc.fail({"inv": "set-lost-other-setting", "key": k_}, case, str(v_), {"exit": g["exit_code"], "stdout": g["stdout"][:100]})
+                (root / fname).unlink(missing_ok=True)
+        acc.sample({"file_names": ["cfg.yaml", "cfg.yml", "cfg.json", "cfg.YAML", "cfg.Yml", "cfg.Json", "cfg.JSON", "settings", "cfg.toml", "cfg.yaml.bak"], "commands": ["set valid", "set invalid", "reset"]})
     elif k == "banner-layouts":
         # hand-kept sections above AND below the generated GLOBAL SETTINGS banner; below it one
         # section may be present but empty
@@ -575,6 +614,12 @@ def run_item(item) -> Acc:
 
 
 def replay_case(case) -> list[dict]:
+    if case.get("file_name"):
+        a = run_item({"kind": "file-names"})
+        out = [f for f in a.failures if f["case"] == case]
+        for f in out:
+            print(f"$ thailint --config {case['file_name']} {case['commands'][0]}\n  expected: {f['expected']}\n  observed: {f['observed']}")
+        return out
     acc = Acc()
     root = project({})
     init = None if case.get("initial") is None else case["initial"].encode()
